@@ -1,4 +1,7 @@
 pub mod c16;
+pub mod sectors;
+pub mod power_ds;
+pub mod sectors_actor;
 
 #[derive(Clone, Debug)]
 pub struct RunCfg {
